@@ -23,9 +23,10 @@ import (
 )
 
 type abiType struct {
-	Kind string // uint int bool address tokenStandard hash fixedBytes string bytes unsupported
+	Kind string // uint int bool address tokenStandard hash fixedBytes string bytes slice unsupported
 	Size int    // bits for ints, bytes for fixedBytes
 	Str  string
+	Elem *abiType // slice: element type (static element types only)
 }
 
 type abiArg struct {
@@ -49,6 +50,13 @@ var abiTypeRe = regexp.MustCompile(`^([a-zA-Z]+)([0-9]*)$`)
 
 func parseAbiType(s string) abiType {
 	t := abiType{Str: s, Kind: "unsupported"}
+	if strings.HasSuffix(s, "[]") {
+		el := parseAbiType(strings.TrimSuffix(s, "[]"))
+		if el.Kind != "unsupported" && !el.dynamic() {
+			t.Kind, t.Elem = "slice", &el
+		}
+		return t
+	}
 	if strings.Contains(s, "[") {
 		return t
 	}
@@ -75,7 +83,7 @@ func parseAbiType(s string) abiType {
 	return t
 }
 
-func (t abiType) dynamic() bool { return t.Kind == "string" || t.Kind == "bytes" }
+func (t abiType) dynamic() bool { return t.Kind == "string" || t.Kind == "bytes" || t.Kind == "slice" }
 
 func parseAbiJSON(src string) (*abiDesc, error) {
 	var fields []struct {
@@ -216,6 +224,16 @@ func (in *Interp) abiPackArg(t abiType, arg Value) (head SliceV, tail SliceV) {
 		out = append(out, in.zeroBytes(padded-l)...)
 		return nil, out
 	}
+	if t.Kind == "slice" {
+		if els, ok := arg.(SliceV); ok {
+			out := in.bvToBytes(tt.BVU(uint64(len(els)), 256))
+			for _, el := range els {
+				h, _ := in.abiPackArg(*t.Elem, el)
+				out = append(out, h...)
+			}
+			return nil, out
+		}
+	}
 	in.unsupported("abi: pack of type %s from %T", t.Str, arg)
 	return nil, nil
 }
@@ -313,9 +331,46 @@ func (in *Interp) abiDecodeArg(t abiType, idx int, data SliceV, nextTail *int) (
 		}
 		return normStr(s), nil
 	}
+	if t.Kind == "slice" {
+		// lengthPrefixPointsTo, then forEachUnpack: `size` elements of one word each from offset+32
+		off := tt.Bv2Nat(cat(word))
+		offEnd := tt.IAdd(off, tt.IntI(32))
+		L := tt.IntI(int64(len(data)))
+		if !in.truth(tt.ILe(offEnd, L)) {
+			return nil, in.makeError("abi: offset overflow")
+		}
+		in.assume(tt.Eq(off, tt.IntI(int64(*nextTail))), "abi: dynamic arguments sit at their canonical offsets")
+		offC := *nextTail
+		if offC+32 > len(data) {
+			return nil, in.makeError("abi: offset overflow")
+		}
+		ln := tt.Bv2Nat(cat(data[offC : offC+32]))
+		if !in.truth(tt.ILe(tt.IAdd(offEnd, ln), L)) {
+			return nil, in.makeError("abi: insufficient length")
+		}
+		if !in.truth(tt.ILe(tt.IAdd(offEnd, tt.IMul(ln, tt.IntI(32))), L)) {
+			return nil, in.makeError("abi: array offset overflow")
+		}
+		lnC := int(in.concretize(tt.Int2Bv(ln, 64), "abi slice length"))
+		begin := offC + 32
+		*nextTail += 32 + 32*lnC
+		out := make(SliceV, lnC)
+		for j := 0; j < lnC; j++ {
+			dummy := 0
+			v, err := in.abiDecodeArg(*t.Elem, j, data[begin:], &dummy)
+			if err != nil {
+				return nil, err
+			}
+			out[j] = v
+		}
+		return abiSlice{out}, nil
+	}
 	in.unsupported("abi: unpack of type %s", t.Str)
 	return nil, nil
 }
+
+// abiSlice is a decoded slice whose elements still need conversion to the destination's element type
+type abiSlice struct{ Els SliceV }
 
 func capitaliseABI(s string) string {
 	for len(s) > 0 && s[0] == '_' {
@@ -329,6 +384,19 @@ func capitaliseABI(s string) string {
 
 // abiAssign stores a decoded value into a destination cell of Go type T.
 func (in *Interp) abiAssign(cell *Value, T types.Type, v Value) {
+	if as, ok := v.(abiSlice); ok {
+		st, isSlice := T.Underlying().(*types.Slice)
+		if !isSlice {
+			in.unsupported("abi: slice decoded into %s", T)
+		}
+		out := make(SliceV, len(as.Els))
+		for i, el := range as.Els {
+			out[i] = in.zero(st.Elem())
+			in.abiAssign(&out[i], st.Elem(), el)
+		}
+		in.store(cell, out)
+		return
+	}
 	if bv, ok := v.(BigV); ok {
 		if _, isPtr := T.Underlying().(*types.Pointer); isPtr {
 			in.store(cell, in.bigPtr(bv.T))
